@@ -10,8 +10,10 @@ exception / other error / TApplicationException.
     handler's outcome, a successful oneway call produced no reply frame, inherited methods behave like own
     ones, an unknown method / wrong reply name / wrong reply type is rejected with the documented exception;
   * correspondence: every call is replayed on the Coq model (Judge/JGenCall.v over Model/GenCall.v): the model's
-    end-to-end rpc_call on the same arguments and scripted outcome, and -- binary protocol -- the model's
-    server on the request bytes that travelled and the model's client on the reply bytes that travelled.
+    end-to-end rpc_call on the same arguments and scripted outcome, and -- binary AND compact protocols -- the
+    model's server on the request bytes that travelled and the model's client on the reply bytes that travelled
+    (the model runs over the codec of the session: bin_codec / compact_codec of Model/GenCall.v; JSON sessions are
+    judged at the level of values only).
 """
 import collections
 import struct
@@ -30,6 +32,8 @@ THRIFT_JSON_SPLIT = re.compile(rb"Expected '(-?Infinity|NaN)' but found '")
 TRANSPORTS = ["mem", "tcp", "http", "nats"]
 PROTOS = ["binary", "compact", "json"]
 REGISTRY = {"mem": 0, "http": 0, "tcp": 1, "nats": 1}
+PROTO_CODE = {"binary": 0, "compact": 1, "json": 2}
+BYTE_LEVEL = ("binary", "compact")
 
 
 def go_name(m):
@@ -301,6 +305,7 @@ def plan_session(rng, P, cfn, csvc, sfn, ssvc, transport, proto, per_method, tam
             else:
                 continue
             c.desc = desc
+            c.proto = proto
             c.tamper = None
             req = {"method": go_name(m), "args": [L.to_wire(p, a["type"], v) for a, v in zip(m["args"], c.args)],
                    "outcome": spec}
@@ -310,7 +315,8 @@ def plan_session(rng, P, cfn, csvc, sfn, ssvc, transport, proto, per_method, tam
                 if rng.random() < 0.5:
                     c.tamper = {"name": (wire_name(m) + "x").encode().hex() if rng.random() < 0.7 else b"".hex()}
                 else:
-                    c.tamper = {"type": rng.choice([1, 4, 0, 5, 77])}
+                    # TCompactProtocol carries three bits of the type: 12 arrives as 4, 13 and 77 as 5
+                    c.tamper = {"type": rng.choice([1, 4, 0, 5, 77] + ([7, 6, 12, 13] if proto == "compact" else []))}
                 req["tamper"] = c.tamper
             calls.append(c)
             reqs.append(req)
@@ -358,6 +364,7 @@ def plan_boundary(rng, P, transport, proto, sizes):
         which = rng.random()
         c = Call()
         c.dfn, c.dsvc, c.own, c.tamper, c.unwritable = fn, "Echo", True, None, False
+        c.proto = proto
         if which < 0.45:      # a large request
             c.m, c.args, c.desc = echo, ["a" * n], ("ret", "ok")
         elif which < 0.9:     # a large reply
@@ -375,6 +382,7 @@ def plan_boundary(rng, P, transport, proto, sizes):
         for n in range(-sizes[0]):
             c = Call()
             c.dfn, c.dsvc, c.own, c.tamper, c.unwritable = fn, "Echo", True, None, False
+            c.proto = proto
             c.m, c.args, c.desc = summ, ["p" * (3950 + n), [float("-inf")] * 30], ("ret", n)
             calls.append(c)
             reqs.append({"method": go_name(summ), "args": [L.to_wire(p, a["type"], v) for a, v in zip(summ["args"], c.args)],
@@ -436,6 +444,8 @@ def expected_client(P, c, server_has):
         if "name" in c.tamper:
             return ("appexc", 3, wn + b" failed: wrong method name")
         t = c.tamper["type"]
+        if getattr(c, "proto", "binary") == "compact":
+            t %= 8
         if t == 2:
             pass
         elif t == 3:
@@ -512,9 +522,10 @@ def plan_program(rng, P, svcs, plan):
         for (t, pr) in combos[:plan["combos"]]:
             req, calls = plan_session(rng, P, fn, sv, fn, sv, t, pr, plan["per_method"])
             sessions.append((req, calls, fn, sv, fn, sv, t, pr))
-        # byte-level sessions: binary over the in-memory transport, with and without tampering of the reply
-        req, calls = plan_session(rng, P, fn, sv, fn, sv, "mem", "binary", plan["per_method"], tamper=True)
-        sessions.append((req, calls, fn, sv, fn, sv, "mem", "binary"))
+        # sessions with tampering of the reply's message header (binary and compact over the in-memory transport)
+        for pr in BYTE_LEVEL:
+            req, calls = plan_session(rng, P, fn, sv, fn, sv, "mem", pr, plan["per_method"], tamper=True)
+            sessions.append((req, calls, fn, sv, fn, sv, "mem", pr))
         # a server that does not know the client's methods: a processor of another service
         mine = {wire_name(m) for _, _, m in L.service_methods(p, fn, sv)}
         for (fn2, sv2) in svcs:
@@ -686,7 +697,9 @@ def _run_program(ctx, prog, lb, plan, stats, judge_cases, judge_meta):
                 tok_cli = [4] if oc["type"] == 3 else [3, oc["type"], bytes.fromhex(oc["msg"])]
             else:
                 tok_cli = [5]
-            binary = proto == "binary"
+            binary = proto in BYTE_LEVEL
+            if binary and reqf:
+                stats["byte_level/" + proto] += 1
             if proto == "json":
                 tok_args, tok_log, tok_cli = canon_nan(tok_args), canon_nan(tok_log), canon_nan(tok_cli)
                 if tok_out[0] in (0, 1):
@@ -698,7 +711,8 @@ def _run_program(ctx, prog, lb, plan, stats, judge_cases, judge_meta):
             fuel = min(400000, 4 * (len(reqf) + sum(len(x) for x in reps)) + 2000)
             call_tok = [P.sids[(cfn, csvc)], P.sids[(sfn, ssvc)], go_name(m).encode(), REGISTRY[transport], hdrs,
                         tok_args, tok_out, tok_log, tok_cli, nrep,
-                        [reqf[4:]] if (binary and reqf) else [], [reps[0][4:]] if (binary and reps) else [], tam, fuel]
+                        [reqf[4:]] if (binary and reqf) else [], [reps[0][4:]] if (binary and reps) else [], tam, fuel,
+                        PROTO_CODE[proto]]
             key = (cfn, csvc, sfn, ssvc)
             per_case.setdefault(key, ([], []))
             per_case[key][0].append(call_tok)
@@ -718,7 +732,13 @@ def _run_program(ctx, prog, lb, plan, stats, judge_cases, judge_meta):
                 # an undeclared exception's message prints pointer fields as addresses: not part of the outcome
                 cl = dict(cl or {})
                 if cl.get("kind") == "appexc" and cl.get("msg"):
-                    cl["msg"] = re.sub(rb"0xc[0-9a-f]{6,12}", b"0xPTR", bytes.fromhex(cl["msg"])).hex()
+                    txt = re.sub(rb"0xc[0-9a-f]{6,12}", b"0xPTR", bytes.fromhex(cl["msg"]))
+                    if cb.desc[0] == "exc" and cl.get("type") == 6:
+                        # ... and fmt prints a map in key order, which for keys holding pointers is the order of the
+                        # addresses of this very value (each call raises a fresh one): keep what does not depend on
+                        # them, the text up to the exception's first field and its length
+                        txt = txt.split(b"(", 1)[0] + b"(...%d" % len(txt)
+                    cl["msg"] = txt.hex()
                 return cl
             try:
                 same = observed_client(P, cb, _noaddr(b.get("client"))) == observed_client(P, cb, _noaddr(alone["client"]))
@@ -836,7 +856,7 @@ TAGS = {1: "value returned", 2: "declared exception", 4: "undeclared error -> IN
         8: "TApplicationException passed on", 16: "oneway without reply", 32: "oneway with error reply",
         64: "unknown method", 128: "reply rejected (name/type)", 256: "inherited method",
         512: "RESPONSE_TOO_LARGE mapping", 1024: "byte-level replay", 2048: "reply not delivered",
-        4096: "arguments refused by the generated Write"}
+        4096: "arguments refused by the generated Write", 8192: "replayed over the compact codec"}
 
 
 def run(ctx, br):
@@ -887,8 +907,9 @@ def run(ctx, br):
                 if v & b:
                     tagbits[TAGS[b]] += 1
     ctx.assumptions += [
-        "TCompact / TJSON codecs are Apache Thrift's: calls under them are compared with the model at the level of values "
-        "(arguments seen, outcome returned, reply count); byte-level replay of request and reply is done for TBinary",
+        "the TJSON codec is Apache Thrift's: calls under it are compared with the model at the level of values "
+        "(arguments seen, outcome returned, reply count); byte-level replay of request and reply is done for TBinary and "
+        "TCompact (Model/ThriftCompact.v + the compact message envelope of Model/GenCall.v)",
         "brokers and sockets deliver frames unchanged and in order (embedded nats-server, net/http, loopback TCP); "
         "base64 of the HTTP transport is Go's",
         "a nil slice/map/binary argument is the same value as an empty one; set/map order is Go's iteration order",
